@@ -192,7 +192,28 @@ EXPORT errno_t _wcstombs_s_chk(size_t *restrict retvalp, char *restrict dest,
     }
 
     /* l is the strlen, excluding NULL */
-    l = *retvalp = wcstombs(dest, src, len);
+    /* libc stores up to len bytes: never more than dest holds. A multibyte
+       character that does not fit ends the conversion early, so decide
+       "no space" from the full length first */
+    if (dest && len > dmax) {
+        const wchar_t *s2 = src;
+        mbstate_t st2;
+        memset(&st2, 0, sizeof(st2));
+        l = wcsrtombs(dest, &s2, dmax, &st2);
+        if (l != (size_t)-1 && s2 != NULL) {
+            /* stopped before the terminator: would libc, allowed len bytes,
+               have stored the next character as well? */
+            char mb[MB_LEN_MAX];
+            size_t b = wcrtomb(mb, *s2, &st2);
+            if (b == (size_t)-1)
+                l = (size_t)-1; /* illegal character */
+            else if (l + b <= len)
+                l = dmax; /* does not fit */
+        }
+        *retvalp = l;
+    } else {
+        l = *retvalp = wcstombs(dest, src, len);
+    }
 
     if (likely(l > 0 && (rsize_t)l < dmax)) {
         if (dest) {
